@@ -822,8 +822,17 @@ class HistogramBase(abc.ABC):
             "frequencies": a_dict.get("frequencies"),
             "errors2": a_dict.get("errors2"),
         }
+        # Nested lists cannot express shapes like (0, 0) of still empty histograms
+        shape = tuple(binning.bin_count for binning in kwargs["binnings"])
+        for key in ("frequencies", "errors2"):
+            if kwargs[key] is not None and 0 in shape:
+                kwargs[key] = np.asarray(kwargs[key], dtype=kwargs["dtype"]).reshape(
+                    shape
+                )
         if "missed" in a_dict:
             kwargs["missed"] = a_dict["missed"]
+        if "missed_keep" in a_dict:
+            kwargs["keep_missed"] = a_dict["missed_keep"]
         kwargs.update(a_dict.get("meta_data", {}))
         if len(kwargs["binnings"]) > 2:
             kwargs["dimension"] = len(kwargs["binnings"])
